@@ -69,7 +69,11 @@ Explains(cfg, e) ==
               LET p == c.a.p  l == c.a.l IN
               /\ Len(p) >= 1 /\ DnaWord(p) /\ l >= 1 /\ (cfg.tab # 0 => UpperWord(p))
               /\ AllSmemsOKin(MemSet(p, t), p, l, r.ms, t)
-         [] c.op \in {"serde", "clone"} -> TRUE     \* the (owned) index went through Serialize/Deserialize
+         [] c.op \in {"serde", "clone"} -> TRUE
+         [] c.op = "smems_big" ->      \* l >= 2^32 - 1 > |p|: no SMEM is that long (Smems(p,i,l) = {} for l > |p|)
+              /\ Len(c.a.p) >= 1 /\ Len(c.a.p) < 1000000
+              /\ Len(r.res) = Len(c.a.p) /\ \A i \in 1..Len(r.res) : r.res[i] = << >>
+              /\ r.all = << >>     \* the (owned) index went through Serialize/Deserialize
          [] c.op = "bsearch" ->        \* FMIndexable::backward_search of the FMD index (C05 semantics)
               LET p == c.a.p IN
               /\ Len(p) >= 1 /\ DnaWord(p)
